@@ -29,7 +29,9 @@ SHRINK_KEY = ["ops", "prefix"]
 RULE = (
     "case = topology spec (LAN1/LAN2 switched, R1/R2 routed, DMZ firewall; attacker hA and victim hB placements; 0-2 "
     "silent third hosts) x one complete block on the hA-hB cut of the tree (deny rule(s) of 10 shapes at the top of a "
-    "router ACL or of one of the two firewall lists on the path, wildcard rules with normalised and un-normalised bases and 5 wildcard widths; disabled host NIC / switch port / router port; absent "
+    "router ACL or of one of the two firewall lists on the path, port-specific rules (dst-port only / src-port only / both; "
+    "complete for one service, repertoire restricted to it and completeness observed), rules installed from the scenario "
+    "file, by request or through the Python API, a bounded-exhaustive list x shape x installation product, wildcard rules with normalised and un-normalised bases and 5 wildcard widths; disabled host NIC / switch port / router port; absent "
     "link; powered-off victim, switch or router) installed from the scenario file, by request before anything else, or "
     "by request after an unblocked prefix x attack schedule on hA (ping, nmap ping/port/recon, install/configure/"
     "execute of data-manipulation-bot, ransomware-script, dos-bot, c2-beacon, c2-server commands, database client "
@@ -92,6 +94,10 @@ class Mon:
         self.watch = False                       # True in the post-block phase of blocked runs
         self.a_frames_at_b = 0
         self.b_accepts = 0
+        self.attacker = None
+        self.ip_b = None
+        self.port_rule = None                    # the single rule of a port-specific block (completeness is observed)
+        self.uncovered: List[str] = []           # frames hA sent towards hB after the block that the port rule does not name
 
     def v(self, sig: str, msg: str):
         if len(self.viol) < 20:
@@ -190,6 +196,13 @@ def install_monitors():
         m = Mon.current
         if m is not None:
             node = self._connected_node
+            if m.port_rule is not None and m.watch and node is m.attacker and frame.ip is not None \
+                    and str(frame.ip.dst_ip_address) == m.ip_b:
+                l4 = frame.tcp or frame.udp
+                if not T.rule_covers(m.port_rule, str(frame.ip.protocol), str(frame.ip.src_ip_address), m.ip_b,
+                                     int(l4.src_port) if l4 else None, int(l4.dst_port) if l4 else None):
+                    if len(m.uncovered) < 5:
+                        m.uncovered.append(_frame_desc(frame))
             k = (id(node), id(frame))
             if k in m.denied:
                 m.v(f"denied-frame-sent:{_dev_kind(node)}",
@@ -251,7 +264,9 @@ def attach(m: Mon, game, meta: Dict, mech: str):
                 m.acl_owner[id(node.acl)] = node
                 m.acl_name[id(node.acl)] = "acl"
     m.victim = net.get_node_by_hostname(B)
+    m.attacker = net.get_node_by_hostname(A)
     m.ip_a = meta["ip_a"]
+    m.ip_b = meta["ip_b"]
     m.mech = mech
 
 
@@ -481,6 +496,8 @@ def run_once(case: Dict, mode: str) -> Run:
     r.mon = m
     game = new_game(cfg, seed=seed)
     attach(m, game, meta, block_sig(spec))
+    if spec["block"]["mech"] == "acl" and spec["block"]["shape"] in T.PORT_SHAPES:
+        m.port_rule = T.block_target(spec)["rules"][0]
     am = _am()
     b = game.simulation.network.get_node_by_hostname(B)
     Mon.current = m
@@ -511,7 +528,13 @@ def run_once(case: Dict, mode: str) -> Run:
                 if not step(op, False, False):
                     return r
         # 2. the block
-        if by_request:
+        if by_request and spec.get("via") == "api":
+            pin(seed, i)
+            i += 1
+            if blocked:
+                add_rules_by_api(game, spec)
+                r.outcomes.append("block api")
+        elif by_request:
             for act in T.block_requests(spec):
                 pin(seed, i)
                 i += 1
@@ -539,6 +562,29 @@ def run_once(case: Dict, mode: str) -> Run:
     finally:
         Mon.current = None
     return r
+
+
+def add_rules_by_api(game, spec: Dict):
+    """The block through the Python API the firewall/router documentation shows: <list>.add_rule(action=..., ...)."""
+    from primaite.simulator.network.hardware.nodes.network.router import ACLAction
+    from primaite.utils.validation.ip_protocol import PROTOCOL_LOOKUP
+
+    t = T.block_target(spec)
+    acl = t["acl"]
+    dev = game.simulation.network.get_node_by_hostname(acl["dev"])
+    lst = dev.acl if acl["kind"] == "router" else getattr(dev, f"{acl['port']}_{acl['dir']}_acl")
+    for k, rule in enumerate(t["rules"]):
+        lst.add_rule(
+            action=ACLAction.DENY,
+            protocol=None if rule["protocol_name"] == "ALL" else PROTOCOL_LOOKUP[rule["protocol_name"].upper()],
+            src_ip_address=None if rule["src_ip"] == "ALL" else rule["src_ip"],
+            src_wildcard_mask=None if rule["src_wildcard"] == "NONE" else rule["src_wildcard"],
+            dst_ip_address=None if rule["dst_ip"] == "ALL" else rule["dst_ip"],
+            dst_wildcard_mask=None if rule["dst_wildcard"] == "NONE" else rule["dst_wildcard"],
+            src_port=None if rule["src_port"] == "ALL" else rule["src_port"],
+            dst_port=None if rule["dst_port"] == "ALL" else rule["dst_port"],
+            position=t["pos"] + k,
+        )
 
 
 STATS = {"acl_verdicts": 0, "acl_denials": 0, "frames_accepted_by_victim": 0}
@@ -574,6 +620,13 @@ def run_case(case: Dict) -> CaseResult:
                 seen.add(sig)
                 res.violate(sig, f"[{which} run] {msg}")
 
+    # a port-specific rule blocks one service: if hA put anything else on the wire towards hB after the block, the
+    # premise "every path is blocked" does not hold for this schedule and only oracle 2 is applied
+    incomplete = bool(att.mon.uncovered or idle.mon.uncovered)
+    if incomplete:
+        res.label("port-block-incomplete")
+        for r_ in (att, idle):
+            r_.mon.viol = [v for v in r_.mon.viol if not v[0].startswith("attacker-frame-accepted-by-victim")]
     mon_viol(att, "attack")
     mon_viol(idle, "idle")
     if idle.aborted:
@@ -586,7 +639,7 @@ def run_case(case: Dict) -> CaseResult:
     if idle.aborted_at is not None:
         n = min(n, idle.aborted_at)
     ops = case["ops"]
-    for j in range(n):
+    for j in range(0 if incomplete else n):
         if att.snaps[j] != idle.snaps[j]:
             d = first_diff(idle.snaps[j], att.snaps[j])
             section = d[0].split("/")[1] if d and "/" in d[0] else "?"
@@ -614,6 +667,9 @@ def run_case(case: Dict) -> CaseResult:
     res.label(f"fam:{spec['fam']}", f"block:{bs}", f"when:{spec['when']}/{spec.get('via')}")
     if spec["block"]["mech"] == "acl":
         res.label(f"shape:{spec['block']['shape']}")
+        if spec["block"]["shape"] in T.PORT_SHAPES:
+            pp_ = spec["block"].get("pp", {})
+            res.label(f"port-rule:{pp_.get('svc')}/{pp_.get('proto')}/addr-{pp_.get('addr')}")
         wc_ = spec["block"].get("wc")
         if wc_:
             t_ = T.block_target(spec)["rules"][0]
@@ -640,14 +696,19 @@ ZONES = ("ext", "int", "dmz")
 
 
 @st.composite
-def gadget(draw, a_sw: List[str], b_sw: List[str], post: bool, arp_scan_ok: bool = True):
-    """A short coherent piece of attack (flattened into the op list, so ddmin can cut inside it)."""
+def gadget(draw, a_sw: List[str], b_sw: List[str], post: bool, arp_scan_ok: bool = True, only=None):
+    """A short coherent piece of attack (flattened into the op list, so ddmin can cut inside it).
+
+    `only`: restrict to these gadget kinds (port-specific blocks: the service the rule names, plus local actions).
+    """
     kinds = ["ping", "nmap", "dmbot", "ransom", "dos", "db", "db", "ftp", "ssh", "ssh", "local"]
     # victim runs a beacon -> attacker is the C2 server; otherwise the attacker may run a beacon towards the victim.
     # (never both: a beacon that is sent a keep-alive before it has a session raises AttributeError - not C06's business)
     kinds += ["c2srv", "c2srv"] if "c2b" in b_sw else ["c2bcn"]
     if post:
         kinds += ["bping"]
+    if only is not None:
+        kinds = [k_ for k_ in kinds if k_ in only] or ["local"]
     k = draw(st.sampled_from(kinds))
     t = [["tick"]] * _pick(draw, 3)
     if k == "ping":
@@ -726,8 +787,13 @@ def case_strategy(draw, tier: str, fam: str, mech: str, allow_instant_off: bool 
         g = int(mech[4:])
         mech, shapes = "acl", list(T.ACL_SHAPES[2 * g:2 * g + 2])
     block: Dict[str, Any] = {"mech": mech}
+    svc = None
     if mech == "acl":
         block.update(shape=draw(st.sampled_from(shapes)), which=_pick(draw, len(P["acls"])), pos=_pick(draw, 7))
+        if block["shape"] in T.PORT_SHAPES:
+            svc = draw(st.sampled_from(sorted(T.SVC_PORT)))
+            block["pp"] = {"svc": svc, "proto": draw(st.sampled_from(T.PP_PROTOS)),
+                           "addr": draw(st.sampled_from(T.PP_ADDRS))}
         if block["shape"].startswith("wild"):
             # the wildcard applies to base and candidate alike: normalised bases, the host's own address, another address
             # of the range; /24-wide as well as narrower and wider wildcards that still cover the blocked address
@@ -756,6 +822,9 @@ def case_strategy(draw, tier: str, fam: str, mech: str, allow_instant_off: bool 
         when, via = "before", "config"
     elif mech in ("nic", "swport", "l3port"):
         when, via = draw(st.sampled_from(["before", "after", "after"])), "request"
+    elif mech == "acl":
+        when = draw(st.sampled_from(["before", "after", "after"]))
+        via = draw(st.sampled_from(["request", "api"] if when == "after" else ["config", "config", "request", "api"]))
     else:
         when = draw(st.sampled_from(["before", "after", "after"]))
         via = "request" if when == "after" else draw(st.sampled_from(["config", "request"]))
@@ -768,6 +837,18 @@ def case_strategy(draw, tier: str, fam: str, mech: str, allow_instant_off: bool 
         a_sw = (a_sw - {"c2b"}) | {"c2s"}
     else:
         a_sw = a_sw - {"c2s"}
+    only_pre = only_post = None
+    if svc is not None:
+        # a port-specific rule cuts one service: after the block hA uses only that service (anything else it put on the
+        # wire towards hB would make the block incomplete; run_case checks that by observation and then skips oracle 1)
+        if svc == "http":
+            if "c2b" not in b_sw:
+                b_sw = sorted(set(b_sw) | {"c2s"})
+        else:
+            b_sw = [x for x in b_sw if x != "c2b"]   # its keep-alives would be answered by hA on port 80
+            a_sw = (a_sw - {"c2s"})
+        only_post = SVC_GADGETS[svc]
+        only_pre = only_post | {"ping", "nmap"}
     a_sw = sorted(a_sw)
     spec = {
         "fam": fam, "za": za, "zb": zb,
@@ -785,10 +866,10 @@ def case_strategy(draw, tier: str, fam: str, mech: str, allow_instant_off: bool 
         if "c2b" in b_sw and _pick(draw, 4) > 0:
             prefix += [["b_beacon"], ["tick"]]
         for _ in range(_pick(draw, 5)):
-            prefix += draw(gadget(a_sw, b_sw, False, arp_ok))
+            prefix += draw(gadget(a_sw, b_sw, False, arp_ok, only_pre))
     ops: List[List] = []
     for _ in range(1 + _pick(draw, 5)):
-        ops += draw(gadget(a_sw, b_sw, True, arp_ok))
+        ops += draw(gadget(a_sw, b_sw, True, arp_ok, only_post))
     wait = _pick(draw, 4)
     if mech == "off":
         wait += spec["dur"] + 1
@@ -797,12 +878,81 @@ def case_strategy(draw, tier: str, fam: str, mech: str, allow_instant_off: bool 
             "control": control}
 
 
+SVC_GADGETS = {"db": {"dmbot", "ransom", "dos", "db", "local"}, "ftp": {"ftp", "local"}, "ssh": {"ssh", "local"},
+               "http": {"c2srv", "c2bcn", "local"}}
+
+# ---------------------------------------------------------------------------------------------------------------------
+# bounded-exhaustive part: every rule list on a path x every rule shape x every way of installing the rule
+
+ENUM_PLACEMENTS = [("R1", 0, 1), ("R1", 1, 0), ("R2", 0, 1), ("R2", 1, 0)] + \
+                  [("DMZ", a_, b_) for a_ in ZONES for b_ in ZONES if a_ != b_]
+ENUM_OPS = {
+    "gen0": (["dmbot"], [], [["ping", 1], ["execute", "dbc"], ["dbc_query", "DELETE"], ["tick"]]),
+    "gen1": ([], [], [["login", "admin"], ["remote_cmd", "mkdir"], ["ftp_send", "drop"], ["tick"]]),
+    "gen2": (["dmbot"], [], [["nmap_ping"], ["execute", "dmbot"], ["tick"], ["ping", 2]]),
+    "db": (["dmbot"], [], [["execute", "dbc"], ["dbc_query", "DELETE"], ["execute", "dmbot"], ["tick"]]),
+    "ftp": ([], [], [["ftp_send", "drop"], ["tick"], ["ftp_send", "docs"]]),
+    "ssh": ([], [], [["login", "admin"], ["remote_cmd", "mkdir"], ["logoff"], ["tick"]]),
+    "http": (["c2b"], ["c2s"], [["configure", "c2b"], ["execute", "c2b"], ["tick"], ["tick"]]),
+}
+
+
+def enum_shapes() -> List[Dict]:
+    """Block descriptions without list index / position: 10 address/protocol shapes + 3 port sides x 2 protocols x 4
+    address qualifiers (the service rotates with the index)."""
+    out: List[Dict] = []
+    for k_, sh in enumerate(x for x in T.ACL_SHAPES if x not in T.PORT_SHAPES):
+        b = {"mech": "acl", "shape": sh}
+        if sh.startswith("wild"):
+            b["wc"] = {"mask": T.WILD_MASKS[k_ % len(T.WILD_MASKS)], "src_base": T.WILD_BASES[k_ % 3],
+                       "dst_base": T.WILD_BASES[(k_ + 1) % 3], "off": 17 * k_ + 5}
+        out.append(b)
+    svcs = sorted(T.SVC_PORT)
+    k_ = 0
+    for sh in T.PORT_SHAPES:
+        for proto in T.PP_PROTOS:
+            for addr in T.PP_ADDRS:
+                out.append({"mech": "acl", "shape": sh, "pp": {"svc": svcs[(k_ + k_ // 4) % len(svcs)], "proto": proto, "addr": addr}})
+                k_ += 1
+    return out
+
+
+def enum_cases(tier: str):
+    """(placement, list on its path) x shape x {scenario file; request or Python API, alternating before / after a prefix}.
+
+    The scenario-file realisation is complete for every (list, shape); quick adds one of request / API for every second
+    combination, thorough runs both.
+    """
+    n = 0
+    shapes = enum_shapes()
+    for pi, (fam, za, zb) in enumerate(ENUM_PLACEMENTS):
+        nl = len(T.plan({"fam": fam, "za": za, "zb": zb})["acls"])
+        for which in range(nl):
+            for si, blk in enumerate(shapes):
+                if tier == "thorough":
+                    vias = ["config", "request", "api"]
+                else:  # quick: request / API for every second combination, alternating between the two
+                    vias = ["config"] + ([("request", "api")[(si // 2) % 2]] if (pi + which + si) % 2 == 0 else [])
+                for via in vias:
+                    n += 1
+                    block = dict(blk, which=which, pos=(n % 5))
+                    when = "before" if via == "config" or n % 2 == 0 else "after"
+                    key = block["pp"]["svc"] if "pp" in block else f"gen{n % 3}"
+                    a_sw, b_sw, ops = ENUM_OPS[key]
+                    spec = {"fam": fam, "za": za, "zb": zb, "extra": [], "dur": 1,
+                            "routes": ("static", "default0", "default1")[n % 3], "a_sw": list(a_sw), "b_sw": list(b_sw),
+                            "kaf": 2, "db_pw": bool(n % 2), "nmne": None, "block": block, "when": when, "via": via}
+                    prefix = [["ping", 1], ["execute", "dbc"]] if when == "after" else []
+                    yield {"spec": spec, "prefix": prefix, "wait": n % 2, "ops": [list(o) for o in ops], "seed": n % 7,
+                           "control": tier == "thorough" or n % 3 == 0}
+
+
 def strata() -> List[Tuple[str, str, int]]:
     out = []
     for fam in FAMS:
         ms = [("nic", 1), ("swport", 1), ("link", 1), ("off:victim", 1), ("off:switch", 1)]
         if fam in ("R1", "R2", "DMZ"):
-            ms += [(f"acl:{g}", 1) for g in range(5)] + [("l3port", 1), ("off:l3", 1)]
+            ms += [(f"acl:{g}", 1) for g in range((len(T.ACL_SHAPES) + 1) // 2)] + [("l3port", 1), ("off:l3", 1)]
         out += [(fam, m, w) for m, w in ms]
     return out
 
@@ -812,7 +962,17 @@ def worker(ctx: Ctx):
         STATS[k_] = 0  # the parent's finding replays ran before the fork
     allow_instant = not ctx.excl.get(INSTANT_OFF)
     allow_arp = not ctx.excl.get(ARP_PORT)
-    per_unit = 12 if ctx.tier == "quick" else 130
+    per_unit = 8 if ctx.tier == "quick" else 120
+    from ..harness import enum_run
+
+    enum_run(ctx, enum_cases(ctx.tier), run_case)
+    ctx.extra["exhaustive"] = True
+    ctx.extra["exhaustive_domain"] = (
+        "every rule list on the hA-hB path (router ACL of R1/R2 in both directions, all six firewall lists via the six "
+        "ordered zone pairs: 18 placement x list combinations) x 34 rule shapes (10 address/protocol shapes, 24 port rules: "
+        "dst-port only / src-port only / both x tcp|any x address qualifier) x installation from the scenario file "
+        "(complete) and by request / Python API (both in thorough; one of them for every second combination in quick), each with a fixed short "
+        "attack on the blocked service")
     # strata dealt to workers heaviest first, each to the currently lightest worker (deterministic)
     load = [0] * ctx.n
     mine = []
@@ -825,7 +985,7 @@ def worker(ctx: Ctx):
         hyp_run(ctx, case_strategy(ctx.tier, fam, mech, allow_instant, allow_arp), run_case, per_unit * w, sub=j_ % 10)
     for k_, v_ in STATS.items():
         ctx.extra["monitor:" + k_] = int(v_)
-    ctx.extra["strata"] = "46 equally weighted strata: 5 families x block mechanism (ACL split into 5 pairs of rule shapes)"
+    ctx.extra["strata"] = "52 equally weighted strata: 5 families x block mechanism (ACL split into 7 groups of rule shapes)"
     if not allow_instant:
         ctx.extra["excluded:" + INSTANT_OFF] = "power-off blocks are generated with shut_down_duration >= 1 while open"
     if not allow_arp:
